@@ -267,8 +267,8 @@ func VerifH_C20_Handlers() {
 		ext.EvalContextHandler = func(argv []reflect.Value) bool { return len(argv) == 1 }
 	}
 	doc := map[string]interface{}{"c": ctx, "s": s}
-	mode := verifChoose(3)
-	expr := []string{`c.$ext($$.s, 5)`, `c.$ext(5)`, `c.$ext(nothing, 5)`}[mode]
+	mode := verifChoose(5)
+	expr := []string{`c.$ext($$.s, 5)`, `c.$ext(5)`, `c.$ext(nothing, 5)`, `c.$ext(nothing)`, `nothing.$ext(5)`}[mode]
 	e, err := Compile(expr)
 	if err != nil {
 		verifFail("c20-expression-compiles")
@@ -294,6 +294,20 @@ func VerifH_C20_Handlers() {
 		} else {
 			verifAssert(got.kind == oArgType, "no-undefined-handler-type-error")
 		}
+	case 3:
+		// one missing argument: the context handler (which fires on one argument) prepends the context
+		// first, so the undefined handler sees the context item in first position
+		switch {
+		case withCtx:
+			verifAssert(got.kind == oArgType, "both-handlers-context-first-then-type-error-on-second")
+		case withUndef:
+			verifAssert(got.kind == oUndefined, "undefined-handler-alone-no-value")
+		default:
+			verifAssert(got.kind == oArgCount, "no-handlers-count-error")
+		}
+	case 4:
+		// a step applied to nothing is not evaluated at all
+		verifAssert(got.kind == oUndefined, "call-step-on-missing-context-no-value")
 	}
 }
 
